@@ -250,11 +250,10 @@ Definition sender_is_participant (p : payload) (sender : tok) (r : request) : bo
                 match tget (p_ids p) sender with Some id => Z.eqb id pid | None => false end
   end.
 
-(* the lazy restart of a signing round found in a cancelled state: Do(restart) on the live
-   instance, persisted at once *)
+(* the lazy restart of a signing round found in a cancelled state: Do(restart) on the live instance *)
 Definition pm_restart (now : Z) (m : message) (h : hs) (inst : instance) : res instance :=
   match do_live inst ev_sgn_restart (RDefault now) with
-  | FOk i' _ _ => ROk (save_fsm h (m_round m) (dump_of i')) i'
+  | FOk i' _ _ => ROk h i'      (* not persisted here: the round is saved once the message is accepted *)
   | FErr => RErr h
   | FPanic => RPanic
   end.
